@@ -128,8 +128,8 @@ def run(ctx, chk):
     shown = 0
     try:
         for r, lim, pz, u8 in sx.string_cases(ctx):
-            inst = "string(bytes left=%d, limit=%s, first NUL at %s, utf8 %s)" % (r, lim, pz, "valid" if u8 is True else ("valid, non-zero bytes after the NUL" if u8 else "invalid"))
-            out = sx.evaluate(ctx, "string", r, lim, pz, u8 is not False, padded=(u8 != "unpadded"))
+            inst = "string(bytes left=%d, limit=%s, first NUL at %s, utf8 %s)" % (r, lim, pz, "valid" if u8 is True else ("valid, non-zero bytes after the NUL" if u8 == "unpadded" else ("valid, first character two bytes long" if u8 else "invalid")))
+            out = sx.evaluate(ctx, "string", r, lim, pz, u8 is not False, padded=(u8 != "unpadded"), multibyte=(u8 == "multibyte"))
             nstr += 1
             if not adv("string", out, inst):
                 continue
